@@ -97,6 +97,45 @@ pub fn rng_for(ctx: &Ctx, parts: &[&str]) -> TestRng {
     TestRng::from_seed(RngAlgorithm::ChaCha, &vmodel::seed_bytes(s))
 }
 
+/// Like `run_cases`, preceded by a deterministic enumeration of `pre` values (no shrinking: each is
+/// already minimal in the dimension it sweeps).
+pub fn run_cases_pre(
+    ctx: &Ctx,
+    subj: &dyn DynSubject,
+    rep: &mut Report,
+    pre: &[Val],
+    strategy: BoxedStrategy<Val>,
+    cases: u32,
+    check: &dyn Fn(&Val, &mut CaseLog) -> Result<(), Fail>,
+) {
+    for v in pre {
+        let mut log = CaseLog::default();
+        let r = check(v, &mut log);
+        rep.evaluations += 1 + log.extra_evals;
+        if log.nontrivial {
+            rep.nontrivial.insert(crate::report::hash_case(&[subj.name()], v, log.env_hash));
+        }
+        rep.nontrivial.extend(log.extra_nontrivial.iter().copied());
+        for c in &log.classes {
+            rep.class(c);
+        }
+        rep.class("enumerated-sweep-value");
+        if let Err(f) = r {
+            rep.failures.push(Failure {
+                property: ctx.prop.clone(),
+                subject: subj.name().to_string(),
+                subject_index: subj.index(),
+                val: Some(v.clone()),
+                env: f.env,
+                message: f.message,
+                signature: f.signature,
+            });
+            return;
+        }
+    }
+    run_cases(ctx, subj, rep, strategy, cases, check);
+}
+
 /// Drive `check` over `cases` values of `strategy` with proptest (fixed seed, shrinking on failure).
 pub fn run_cases(
     ctx: &Ctx,
